@@ -19,6 +19,7 @@ pub struct T {
     pub edits: (usize, usize),
     pub p_probe: u32,
     pub quiesce: bool,
+    pub dups: bool,
 }
 
 impl Default for T {
@@ -37,6 +38,7 @@ impl Default for T {
             edits: (2, 12),
             p_probe: 0,
             quiesce: true,
+            dups: false,
         }
     }
 }
@@ -85,6 +87,7 @@ pub fn tmpl(mut t: T) -> Template {
                 p_fault,
                 p_probe: t.p_probe,
                 quiesce: t.quiesce,
+                dup_values: t.dups && rng.chance(2, 3),
             }
         }),
     }
@@ -215,6 +218,7 @@ pub fn templates(prop: &str) -> Vec<Template> {
                     family: "mvreg",
                     discs: vec![Disc::Any, Disc::Any, Disc::Fifo, Disc::Causal],
                     repls,
+                    dups: true,
                     clauses: vec!["model", "ctx.consistent", "quiesce"],
                     faults: with(&NET, &["crash", "stale_state"]),
                     ..T::default()
@@ -315,6 +319,19 @@ pub fn templates(prop: &str) -> Vec<Template> {
                 clauses: vec!["index", "ctx.consistent", "model"],
                 faults: with(&NET, &["stale_state"]),
                 edits: (3, 18),
+                ..T::default()
+            }));
+            // equal elements: identity by value is gone, so only the Vec comparison at the origin, the
+            // entry-point cross-checks and convergence are judged
+            v.push(tmpl(T {
+                name: "index-equal-elements",
+                family: "glist",
+                discs: vec![Disc::Any],
+                repls: vec![Repl::Ops, Repl::Hybrid],
+                clauses: vec!["index", "ctx.consistent", "ktable.obs", "quiesce"],
+                faults: with(&NET, &["stale_state"]),
+                edits: (3, 18),
+                dups: true,
                 ..T::default()
             }));
         }
